@@ -640,7 +640,7 @@ func (c08Stream) Impl(c Case) string {
 	if leakFD > 0 {
 		fail("%d file descriptors remain after all connections ended", leakFD)
 	}
-	return verdict + "\t" + traceString(sut.tr.Snapshot(), "conn.", "loop.", "req.")
+	return verdict + "\t" + traceString(sut.tr.Snapshot(), "conn.", "loop.", "req.", "run.", "stop.")
 }
 
 func (c08Stream) ModelLine(c Case, trace string) string { return "trace conn " + trace }
